@@ -71,6 +71,45 @@ def logprob_variant(repo, rel, cls):
     raise SourceShapeError("%s: unrecognised log_posterior_list expression: %s" % (cls, text[:160]))
 
 
+PYSWARMS = "autofit/non_linear/search/mle/pyswarms/search/abstract.py"
+
+
+def pyswarms_variant(repo):
+    """'pinned' (particle 0 of each iteration + best-cost history) or 'pbest' (the particles' personal bests
+    with their own costs: proposed_fixes/C05-pyswarms-pbest-samples); anything else fails closed."""
+    tree = ast.parse(open(os.path.join(repo, PYSWARMS)).read())
+    fn = None
+    for node in ast.walk(tree):
+        if isinstance(node, ast.ClassDef) and node.name == "AbstractPySwarms":
+            for f in node.body:
+                if isinstance(f, ast.FunctionDef) and f.name == "samples_via_internal_from":
+                    fn = f
+    if fn is None:
+        raise SourceShapeError("AbstractPySwarms.samples_via_internal_from not found")
+    assigns, rows_arg = {}, None
+    for node in ast.walk(fn):
+        if isinstance(node, ast.Assign) and len(node.targets) == 1 and isinstance(node.targets[0], ast.Name):
+            assigns[node.targets[0].id] = ast.unparse(node.value).replace(" ", "")
+        if isinstance(node, ast.Call) and ast.unparse(node.func) == "Sample.from_lists":
+            for kw in node.keywords:
+                if kw.arg == "parameter_lists":
+                    rows_arg = ast.unparse(kw.value)
+    pinned = (rows_arg == "parameter_lists_2"
+              and assigns.get("parameter_lists_2") == "[parameters.tolist()[0]forparametersinpos_history]"
+              and assigns.get("parameter_lists") == "[param.tolist()forparametersinpos_historyforparaminparameters]"
+              and assigns.get("log_posterior_list") == "search_internal_dict['log_posterior_list']")
+    pbest = (rows_arg == "parameter_lists"
+             and assigns.get("swarm") == "search_internal.swarm"
+             and assigns.get("parameter_lists") == "swarm.pbest_pos.tolist()"
+             and assigns.get("log_posterior_list") == "[-0.5*costforcostinswarm.pbest_cost]")
+    if pinned:
+        return "pinned"
+    if pbest:
+        return "pbest"
+    raise SourceShapeError("PySwarms conversion has an unrecognised shape: rows=%r %r" % (rows_arg, {k: assigns.get(k) for k in
+                           ("parameter_lists", "parameter_lists_2", "log_posterior_list", "swarm")}))
+
+
 # ---------------------------------------------------------------------------
 # composition programs
 # ---------------------------------------------------------------------------
@@ -461,6 +500,11 @@ def oracle(c, r):
             # likelihood raises FitException is kept with the resample value Fitness returns for it
             if ll != -1.0e99:
                 add("ll", "sample %d lies in the FitException region and reports %r instead of the resample value -1e99" % (i, ll))
+        elif rejected and c["search"].startswith("pyswarms") and VARIANTS.get("PySwarms") == "pbest":
+            # repaired conversion: a particle that never left the FitException region keeps its first position
+            # as personal best with cost +inf, i.e. the resample value -inf
+            if ll != float("-inf"):
+                add("ll", "sample %d lies in the FitException region and reports %r instead of the resample value -inf" % (i, ll))
         elif rejected:
             add("ll", "sample %d lies in the region where the likelihood raises FitException (%s = %r)"
                 % (i, ".".join(rp), vals[prior_of_path[".".join(rp)]]))
@@ -627,6 +671,16 @@ def contract_fails(c, r):
             if not close(unhex(cost), best):
                 bad("pyswarms iteration %d: best cost %r, the running minimum of -2*(likelihood + prior) over the visited "
                     "positions is %r" % (t, unhex(cost), best))
+        for i, (v, cst) in enumerate(zip(st.get("pbest_pos", []), st.get("pbest_cost", []))):
+            vec = [unhex(x) for x in v]
+            if in_reject(vec):
+                if unhex(cst) != float("inf"):
+                    bad("pyswarms personal best %d lies in the FitException region with cost %r" % (i, unhex(cst)))
+                continue
+            p = prior(vec)
+            if p is None or not close(unhex(cst), -2.0 * (L(vec) + p)):
+                bad("pyswarms personal best %d: cost %r stored with %r, -2*(likelihood + prior) there is %r"
+                    % (i, unhex(cst), vec, None if p is None else -2.0 * (L(vec) + p)))
     return fails
 
 
@@ -639,7 +693,7 @@ def classes_of(c, aspect):
     out = ["%s:%s" % (s, aspect), "search=" + s]
     # only the conversion's pairing clauses; the Fitness -> sampler path is judged by the unlabelled
     # `contract` aspect (contract_fails) and the best fit / keys / weights by theirs
-    if s.startswith("pyswarms") and aspect in ("ll", "lp"):
+    if s.startswith("pyswarms") and aspect in ("ll", "lp") and VARIANTS.get("PySwarms") == "pinned":
         out.append("pyswarms-pairing")
     # the MCMC labels apply only while the source has the pinned (unaligned) log-prob call
     if s == "emcee" and aspect == "ll" and VARIANTS.get("Emcee") == "unaligned":
@@ -697,6 +751,8 @@ def coq_state(c, r, variants):
     if s == "drawer":
         return "FDrawer %s %s" % (cfll(st["rows"]), cfl(st["post"]))
     if s in ("pyswarms_global", "pyswarms_local"):
+        if variants.get("PySwarms") == "pbest":
+            return "FPyswarmsPbest %s %s" % (cfll(st["pbest_pos"]), cfl(st["pbest_cost"]))
         return "FPyswarms %s %s" % (cflll(st["pos"]), cfl(st["cost"]))
     raise ValueError(s)
 
@@ -810,6 +866,12 @@ def run(ctx):
             ok = False
             variants[cls] = "unaligned"
             ctx.obligation("translator:%s.log_posterior_list" % cls, "translator", False, str(e))
+    try:
+        variants["PySwarms"] = pyswarms_variant(common.REPO)
+    except (SourceShapeError, OSError, SyntaxError) as e:
+        ok = False
+        variants["PySwarms"] = "pinned"
+        ctx.obligation("translator:PySwarms.samples_via_internal_from", "translator", False, str(e))
     if ok:
         ctx.obligation("translator:mcmc-logprob-variant", "translator", True, json.dumps(variants))
     ctx.notes["mcmc_logprob_variant"] = variants
